@@ -20,11 +20,13 @@ pub struct FCase {
     pub ops: Vec<WOp>,
     /// (device 0 = .shp / 1 = .shx, operation index counted on the run itself)
     pub faults: Vec<(u8, u64)>,
+    /// the writer is not dropped at the end of a scope but by stack unwinding (the caller panics with it alive)
+    pub panic_drop: bool,
 }
 
 impl FCase {
     pub fn to_json(&self) -> Value {
-        json!({"fault_run": {"ty": self.ty.name(), "other": self.other.map(|t| t.name()), "with_shx": self.with_shx, "ops": ops_name(&self.ops),
+        json!({"fault_run": {"ty": self.ty.name(), "other": self.other.map(|t| t.name()), "with_shx": self.with_shx, "ops": ops_name(&self.ops), "panic_drop": self.panic_drop,
             "faults": self.faults.iter().map(|(d, k)| json!([(["shp", "shx"][*d as usize]), k])).collect::<Vec<_>>()}})
     }
     pub fn from_json(v: &Value) -> Option<FCase> {
@@ -34,6 +36,7 @@ impl FCase {
             other: f.get("other").and_then(|x| x.as_str()).and_then(Ty::from_name),
             with_shx: f.get("with_shx")?.as_bool()?,
             ops: ops_from_name(f.get("ops")?.as_str()?)?,
+            panic_drop: f.get("panic_drop").and_then(|x| x.as_bool()).unwrap_or(false),
             faults: f.get("faults")?.as_array()?.iter().map(|x| Some((if x.get(0)?.as_str()? == "shp" { 0u8 } else { 1u8 }, x.get(1)?.as_u64()?))).collect::<Option<Vec<_>>>()?,
         })
     }
@@ -84,7 +87,7 @@ pub fn run(pal: &Palette, case: &FCase) -> FRun {
     let mut accepted = vec![];
     let mut finalized = vec![];
     let envr = &env;
-    let results = exec_writer(pal, &case.ops, Ending::Drop, &env, |_, op, r| match (op, r) {
+    let results = exec_writer(pal, &case.ops, if case.panic_drop { Ending::DropWhilePanicking } else { Ending::Drop }, &env, |_, op, r| match (op, r) {
         (WOp::W(k), CallRes::Ok) => accepted.push(k),
         (WOp::F, CallRes::Ok) => finalized.push((envr.shp.log_len(), accepted.len())),
         _ => {}
@@ -111,9 +114,14 @@ pub fn declared(b: &[u8]) -> &[u8] {
 /// little beyond the fault-free log, because a failed call changes what follows.  Runs in which not every
 /// planned fault fired are single-fault (or fault-free) runs and are not reported.
 pub fn for_each(ty: Ty, other: Option<Ty>, with_shx: bool, ops: &[WOp], pairs: bool, mut f: impl FnMut(&Palette, &FCase, &FRun)) {
-    let mut case = FCase { ty, other, with_shx, ops: ops.to_vec(), faults: vec![] };
+    let mut case = FCase { ty, other, with_shx, ops: ops.to_vec(), faults: vec![], panic_drop: false };
     let pal = case.palette();
     let base = run(&pal, &case);
+    // no fault, but the writer is dropped while the caller's panic unwinds
+    case.panic_drop = true;
+    let unwound = run(&pal, &case);
+    f(&pal, &case, &unwound);
+    case.panic_drop = false;
     let l0 = base.shp_log.len() as u64 + 6;
     let l1 = if with_shx { base.shx_log.len() as u64 + 6 } else { 0 };
     let mut plans: Vec<Vec<(u8, u64)>> = vec![];
